@@ -210,6 +210,19 @@ func (env *Env) comp(e Expr) TV {
 				return TV{T: Sub(IntLit(0), v.T), Ty: v.Ty}
 			}
 			return TV{T: App("bvneg", v.T.Sort, v.T), Ty: v.Ty}
+		case "*":
+			// *p: the scalar cell a pointer designates
+			if v.T == nil || v.Ty == nil {
+				cfail("* of constant")
+			}
+			pt, ok := types.Unalias(v.Ty).Underlying().(*types.Pointer)
+			if !ok || env.w.sortOf(pt.Elem()) == "" {
+				cfail("* needs a pointer to a scalar, got %s", v.Ty)
+			}
+			if _, isStruct := env.w.repoStruct(pt.Elem()); isStruct {
+				cfail("* of a struct pointer: select a field instead")
+			}
+			return TV{T: Select(env.curHeap(env.w.cellHeap(pt.Elem())), v.T), Ty: pt.Elem()}
 		case "^":
 			if v.Const != nil {
 				cfail("^ on untyped constant: convert first")
@@ -810,6 +823,14 @@ func (env *Env) call(x ECall) TV {
 			Forall([]Binder{{jn, SInt}}, Implies(And(P, Le(IntLit(0), j), Lt(j, la.T)),
 				And(Le(IntLit(0), gj), Lt(gj, la.T), Eq(aAt(gj), bAt(j)), Eq(App(fn, SInt, gj), j))), []*Term{bAt(j)}))
 		return TV{T: P, Ty: boolT}
+	case "byteat":
+		// byteat(a, k): the byte at absolute position k of string storage a (s[i] is byteat(arr(s), off(s)+i))
+		if len(x.Args) != 2 {
+			cfail("byteat(arr, pos)")
+		}
+		a := env.toSort(env.comp(x.Args[0]), intT)
+		k := env.toSort(env.comp(x.Args[1]), intT)
+		return TV{T: App("bytes", BV(8), a.T, k.T), Ty: types.Typ[types.Uint8]}
 	case "b2i":
 		v := env.needBool(env.comp(x.Args[0]))
 		return TV{T: Ite(v.T, IntLit(1), IntLit(0)), Ty: intT}
